@@ -13,6 +13,7 @@ package gogen
 
 import (
 	"errors"
+	"fmt"
 	"go/token"
 	"go/types"
 	_ "unsafe"
@@ -56,7 +57,11 @@ func checkerInfer(check *types.Checker, conf *types.Config, fset *token.FileSet,
 	err := &error_{check: check, code: CannotInferTypeArgs}
 	result = checker_infer(check, posn, tparams, targs, params, args, true, err)
 	for _, d := range err.desc {
-		conf.Error(types.Error{Fset: fset, Pos: d.posn.Pos(), Msg: d.msg})
+		pos := token.NoPos
+		if d.posn != nil {
+			pos = d.posn.Pos()
+		}
+		conf.Error(types.Error{Fset: fset, Pos: pos, Msg: d.msg})
 	}
 	return
 }
@@ -71,6 +76,14 @@ func infer(pkg *Package, posn positioner, tparams []*types.TypeParam, targs []ty
 		},
 	}
 	checker := types.NewChecker(conf, pkg.Fset, pkg.Types, nil)
+	defer func() {
+		// go/types' inference runs here outside a type-checking pass, on operands the builder
+		// has not validated (e.g. a generic function as operand of an operator); a failure
+		// inside it means the type arguments cannot be inferred
+		if e := recover(); e != nil {
+			result, err = nil, fmt.Errorf("cannot infer type arguments (%v)", e)
+		}
+	}()
 	result = checkerInfer(checker, conf, pkg.Fset, posn, tparams, targs, params, args)
 	return
 }
